@@ -507,6 +507,10 @@ def shrink(ctx, violation):
 
 
 def replay(ctx, data):
+    if "other_costs" in data["input"]:
+        # the in-place history clause: the recorded cost change is replayed (check_case would draw another one,
+        # or none at all, from ctx.rng)
+        return solvers.replay_inplace(data["input"])
     r = Result()
     run_cases(ctx, r, [data["input"]["case"]])
     ok = not r.concrete
